@@ -137,3 +137,54 @@ int jwt_parse(jwt_t *jwt, const char *token, unsigned int *len)
 	g_parsed_str = c->tracked ? c->tracked->sval : NULL;
 	return 0;
 }
+
+/* ---- abstract jwt_verify_complete: records what it was asked to judge ---- */
+unsigned g_vc_calls; const char *g_vc_token; unsigned g_vc_plen; const jwk_item_t *g_vc_key; jwt_alg_t g_vc_alg;
+jwt_alg_t g_vc_hdr_alg; const void *g_vc_checker; int g_vc_has, g_vc_type; long long g_vc_int; const char *g_vc_str;
+int g_vc_error;
+
+jwt_t *jwt_verify_complete(jwt_t *jwt, const jwt_config_t *config, const char *token, unsigned int payload_len)
+{
+	/* the preconditions of contract_all_jwt_verify_complete that concern the caller */
+	__CPROVER_assert(__CPROVER_rw_ok(jwt, sizeof(*jwt)), "jwt_verify_complete: jwt object valid");
+	__CPROVER_assert(__CPROVER_r_ok(config, sizeof(*config)), "jwt_verify_complete: config valid");
+	__CPROVER_assert(config->key == NULL || __CPROVER_r_ok(config->key, sizeof(*config->key)), "jwt_verify_complete: config key NULL or valid");
+	__CPROVER_assert(token != NULL && __CPROVER_r_ok(token, (size_t)payload_len + 2), "jwt_verify_complete: token readable up to the signature");
+	__CPROVER_assert(jwt->claims != NULL && __CPROVER_r_ok(jwt->claims, sizeof(json_t)), "jwt_verify_complete: claims document valid");
+	__CPROVER_assert(jwt->claims->tracked == NULL || __CPROVER_r_ok(jwt->claims->tracked, sizeof(json_t)), "jwt_verify_complete: tracked claim valid");
+	__CPROVER_assert(jwt->checker != NULL && __CPROVER_r_ok(jwt->checker, sizeof(*jwt->checker)), "jwt_verify_complete: jwt->checker set");
+	__CPROVER_assert(jwt->error_msg[JWT_ERR_LEN - 1] == 0, "jwt_verify_complete: message buffer terminated");
+	g_vc_calls++;
+	g_vc_token = token; g_vc_plen = payload_len; g_vc_key = config->key; g_vc_alg = config->alg;
+	g_vc_hdr_alg = jwt->alg; g_vc_checker = jwt->checker;
+	g_vc_has = jwt->claims->tracked != NULL;
+	g_vc_type = g_vc_has ? (int)jwt->claims->tracked->type : -1;
+	g_vc_int = g_vc_has ? jwt->claims->tracked->ival : 0;
+	g_vc_str = g_vc_has ? jwt->claims->tracked->sval : NULL;
+	/* effect allowed by the contract: key latched, flag possibly set */
+	if (nondet_bool())
+		jwt->key = config->key;
+	if (nondet_bool())
+		set_error(jwt);
+	g_vc_error = jwt->error;
+	return jwt;
+}
+
+/* ---- the two jansson entry points jwt_checker_verify itself uses (around the
+ * callback): light models, equivalent to stubs/jansson.c on the tracked member.
+ * json_delete releases nothing here (the unit does not look for use-after-free
+ * of the replaced claims object; cbmc is very slow on write-then-free). ---- */
+json_t *json_deep_copy(const json_t *value)
+{
+	if (value == NULL || nondet_bool())
+		return NULL;
+	json_t *c = mk_node(value->type);
+	c->ival = value->ival; c->sval = value->sval; c->asize = value->asize;
+	if (value->type == JSON_OBJECT && value->tracked != NULL) {
+		json_t *t = mk_node(value->tracked->type);
+		t->ival = value->tracked->ival; t->sval = value->tracked->sval; t->asize = value->tracked->asize;
+		c->tracked = t;
+	}
+	return c;
+}
+void json_delete(json_t *json) { (void)json; }
